@@ -449,6 +449,16 @@ def check_pruning(rep, tier, seed):
     for f in ["1n1n1bQr/P1P1P2P/8/7k/8/8/8/7K b - - 0 1", "1n1n1bq1/P1P1P2P/8/7k/8/8/8/K7 w - - 0 1", "n1n1n1n1/1P1P1P1P/8/8/8/8/8/K6k w - - 0 1",
               "1r1r1r1r/P1P1P1P1/8/8/8/8/8/K6k w - - 0 1", "k6K/8/8/8/8/8/1p1p1p1p/N1N1N1N1 b - - 0 1", "k6K/8/8/8/8/8/p1p1p1p1/1R1R1R1R b - - 0 1"]:
         cases.append(["new " + f, "obs", "ttnew", "search 1 -1 1", "refroot 1"])
+    # regression corpus (corpus/C09_hard.txt): home-rank pawns with a man in front of them, depth 3
+    hard = []
+    hp = os.path.join(core.VERIF, "corpus", "C09_hard.txt")
+    if os.path.exists(hp):
+        for line in open(hp, encoding="utf-8"):
+            if line.strip() and not line.startswith("#"):
+                f, d = [x.strip() for x in line.split("|")]
+                hard.append((f, int(d)))
+    for f, d in (hard if tier == "thorough" else core.rng(seed, "C09hard").sample(hard, min(len(hard), 16))):
+        cases.append(["new " + f, "obs", "ttnew", "search %d -1 1" % d] + ["refroot %d" % k for k in range(1, d + 1)])
     # sparse pawn endings built around a double push that lands beside an enemy pawn (en passant inside the tree)
     for i in range(40 if tier == "quick" else 1500):
         fl = r.randrange(8)
